@@ -189,10 +189,6 @@ theorem Greedy.addAll_shortCircuit (c : Cfg α) (best : Option α) (xs : List α
           simp [Greedy.foldStep, Greedy.add, hb]
         simp [consideredPrefix, hb, e1, e2, Greedy.fold_sc_done]
 
-/-- which part of a batch the population looks at -/
-def greedyEff (sc : Bool) (c : Cfg α) : Option α → List α → List α :=
-  if sc then consideredPrefix c.le else fun _ xs => xs
-
 theorem Greedy.addAll_eff (sc : Bool) (c : Cfg α) (best : Option α) (xs : List α) :
     Greedy.addAll sc c best xs = Greedy.addAll false c best (greedyEff sc c best xs) := by
   cases sc with
@@ -203,9 +199,6 @@ theorem Greedy.addAll_eff (sc : Bool) (c : Cfg α) (best : Option α) (xs : List
 
 section
 variable [DecidableEq α]
-
-/-- the specification instance for a `Greedy`; with `sc` only the considered prefix of a batch counts as offered -/
-def greedySpec (sc : Bool) (c : Cfg α) : Spec α := ⟨c.le, 1, decide (1 ≤ c.selSize), true, greedyEff sc c⟩
 
 theorem GInv.stateOK {c : Cfg α} {sp : Spec α} (hle : sp.le = c.le) (hcap : sp.cap = 1)
     {offered : List α} {best : Option α} (h : GInv c offered best) (o : Obs α)
